@@ -36,7 +36,8 @@ Record member_new := { mn_bind : string; mn_live : string; mn_args : list string
 Record ctor_body := { cb_user : option user_ctor_call; cb_debut : option (string * string); cb_phantoms : list string;
                       cb_chan : option chan_ctor; cb_chan_binds : option (string * string);
                       cb_spawns : list spawn_stmt; cb_wrap : string; cb_fields : list (string * src);
-                      cb_wrapped : option (string * string * string); cb_members : list member_new; cb_extra : list string }.
+                      cb_wrapped : option (string * string * string); cb_members : list member_new; cb_extra : list string;
+                      cb_order : list string; cb_ret : string }.
 Inductive body := BRef (b : ref_body) | BStat (path : string) (m : string) (args : list src) (aw : bool)
                 | BSlf (b : slf_body) | BCtor (b : ctor_body)
                 | BStop (b : ref_body) (binds : list string) (ret : list src)
